@@ -21,7 +21,7 @@ E = {
     "C07": dict(title="regenerate resamples exactly the selected choices", strength="partial",
                 modules=["GenjaxVerif.Props.C07"],
                 theorems=["C07_regenerate_weight", "C07_unselected_unchanged", "C07_leaf_regenerate", "C07_mask_switch_not_supported", "C07_vmap_not_supported"],
-                props=["C07", "C01"], opts={"regen": 4.0, "upd": 0.3, "proj": 0.2, "assessSelf": 1.5},
+                props=["C07", "C01"], opts={"regen": 4.0, "upd": 0.3, "proj": 0.2, "assessSelf": 1.5, "regen_args": 0.3},
                 focus={"vmap": 0.2, "switch": 0.2, "mask": 0.2, "repeat": 0.2, "orelse": 0.2,
                        "masked_iterate": 0.1, "masked_iterate_final": 0.1, "scan": 2.0, "int": 2.0}),
     "C10": dict(title="project splits the score along a selection", strength="full",
@@ -47,9 +47,9 @@ E = {
                 props=["C06", "C38"], opts={"upd": 4.0, "bwd": 1.0, "regen": 0.2, "proj": 0.1, "max_ops": 4, "sreq": 3.0},
                 focus={"int": 14.0, "static": 4.0}),
     "C08": dict(title="change tags are sound: NoChange really means unchanged", strength="partial",
-                modules=["GenjaxVerif.Props.C09", "GenjaxVerif.Props.C05"],
+                modules=["GenjaxVerif.Props.C09", "GenjaxVerif.Props.C05", "GenjaxVerif.Props.C38"],
                 theorems=["GenjaxVerif.IR.C09_noninterference", "GenjaxVerif.IR.C09_tags_value_independent",
-                          "GenjaxVerif.IR.C09_default_rule", "C05_leaf_update"],
+                          "GenjaxVerif.IR.C09_default_rule", "C05_leaf_update", "C38_empty_update_is_identity"],
                 props=["C08"], opts={"upd": 4.0, "regen": 1.0, "proj": 0.0, "retag": True, "bwd": 0.2},
                 focus={"switch": 0.2, "orelse": 0.2}),
     "C11": dict(title="vmap and repeat behave as independent elementwise calls", strength="full",
@@ -91,7 +91,7 @@ E = {
                 modules=["GenjaxVerif.Props.C19", "GenjaxVerif.Props.C20", "GenjaxVerif.Props.C11"],
                 theorems=["GenjaxVerif.MaskModel.C19_mode_invariance", "GenjaxVerif.MaskModel.C20_flagop_mode_invariance",
                           "C11_vmap_elementwise"],
-                props=["C01", "C02", "C03", "C05", "C07", "C10"], opts={"jit": 0.6, "py": 0.5}, focus={"switch": 3.0, "orelse": 2.0, "oob": 0.25}),
+                props=["C01", "C02", "C03", "C05", "C07", "C10", "C23"], opts={"jit": 0.6, "py": 0.5, "vbatch": 0.4, "start_gen": 0.2}, focus={"switch": 3.0, "orelse": 2.0, "oob": 0.25}),
     "C32": dict(title="generative function closures and keyword handling are transparent", strength="partial",
                 modules=["GenjaxVerif.Props.C32"],
                 theorems=["C32_closure_args", "C32_closure_transparent"],
@@ -112,8 +112,9 @@ E = {
                 theorems=["C38_propose_eq_simulate", "C38_importance_eq_generate", "C38_empty_request_nochange",
                           "C38_empty_request_changed", "C38_simulate_weight", "C38_static_request_of_updates",
                           "C38_static_request_of_regenerates", "C38_static_request_table", "C38_static_request_empty",
-                          "C38_static_request_weight", "C38_static_request_static_only", "C38_diff_annotate_identity"],
-                props=["C38", "C01", "C06"], opts={"propose": 3.0, "empty": 3.0, "upd": 2.0, "regen": 1.0, "proj": 0.5, "sreq": 3.0, "derived": True},
+                          "C38_static_request_weight", "C38_static_request_static_only", "C38_diff_annotate_identity",
+                          "C38_empty_update_is_identity", "C38_empty_request_arms_agree"],
+                props=["C38", "C01", "C06"], opts={"propose": 3.0, "empty": 3.0, "upd": 2.0, "regen": 1.0, "proj": 0.5, "sreq": 3.0, "derived": True, "regen_args": 0.5},
                 focus={"int": 14.0, "static": 4.0}),
 }
 
